@@ -52,11 +52,21 @@ func MapAssign(t *maptype, h *Map, key unsafe.Pointer) unsafe.Pointer {
 }
 
 func MapAccess1(t *maptype, h *hmap, key unsafe.Pointer) unsafe.Pointer {
-	return mapaccess1(t, h, key)
+	e := mapaccess1(t, h, key)
+	if t.Elem.Size_ > maxZero && e == unsafe.Pointer(&zeroVal[0]) {
+		// The shared zero value is only maxZero bytes long (the gc compiler
+		// uses mapaccess1_fat with its own zero value for larger elems).
+		return AllocZ(t.Elem.Size_)
+	}
+	return e
 }
 
 func MapAccess2(t *maptype, h *hmap, key unsafe.Pointer) (unsafe.Pointer, bool) {
-	return mapaccess2(t, h, key)
+	e, ok := mapaccess2(t, h, key)
+	if !ok && t.Elem.Size_ > maxZero {
+		e = AllocZ(t.Elem.Size_) // see MapAccess1
+	}
+	return e, ok
 }
 
 func MapDelete(t *maptype, h *hmap, key unsafe.Pointer) {
